@@ -43,7 +43,15 @@ T_GroupsRecovered   == Ok => Range(R.lgroups) = Range(R.groups) /\ Range(R.lmetr
 \* NaN / infinite / uncomputable come back as missing
 T_ReadBack == Ok => \A gi \in 1..NG : \A mi \in 1..NM : \A i \in 1..Len(R.subjects) :
                        R.loaded[gi][mi][i] = Loaded(R.reported[i][(gi - 1) * NM + mi])
-\* the physical lines: cells joined by TAB, minimal quoting with doubled quotes, terminated by LF
+\* the physical lines, read with the csv dialect of the loader (Tsv.ParseRow), hold one cell per
+\* column and start with the subject - however the writer chose to quote and format them
+T_RowCells   == Ok => \A i \in 1..Len(R.subjects) :
+                   (i + 1 <= Len(R.lines)) =>
+                      LET cells == ParseRow(R.lines[i + 1]) IN
+                      Len(cells) = 1 + Len(R.celltext[i]) /\ cells[1] = R.subjects[i]
+\* the TEXT FORM of the lines as the shipped writer produces it: cells joined by TAB, minimal quoting
+\* with doubled quotes, numbers as str(value), terminated by LF.  C18 does not prescribe it: a
+\* difference here is reported as DRIFT of the model (never as a violation) by the harness.
 T_HeaderText == Ok => R.lines[1] = RowText(<<R.first>> \o R.header)
 T_RowText    == Ok => \A i \in 1..Len(R.subjects) : R.lines[i + 1] = RowText(<<R.subjects[i]>> \o R.celltext[i])
 T_LineCount  == Ok => Len(R.lines) = Len(R.subjects) + 1
